@@ -4,8 +4,9 @@
    L <hex|-> <len> <init>    -> CalculateCRC(buf, len, init) or OOB
    ENC <seq0> t:v:src:hex,.. -> outputs (hex | ERR) joined by ',' then final counter   (ENCL: pre-fix counter)
    B <hex>                   -> set the base message; prints its analysis
-   E <byteoff> <xorhex>      -> analysis of base with xorhex applied at byteoff
-   analysis: V=<ok|big|mismatch|short> I=<1|0|OOB> C1=<crc|OOB> J=<verdict lazy> JE=<verdict eager> S=<frames lazy> SE=<frames eager>
+   E <byteoff> <xorhex> ...  -> analysis of base with each xorhex applied at its byteoff
+   HC t:v:seq:src:hex        -> MessageHeader.calculate_crc: "<crc> <payload_size_bytes>" | ERR
+   analysis: V=<ok|big|notenough|mismatch|short> I=<1|0|OOB> C1=<crc|OOB> J=<verdict lazy> JE=<verdict eager> S=<frames lazy> SE=<frames eager>
    FM <cap> in E/B analysis is the framer capacity used for the eager scan (payload limit cap-24). *)
 open C06_x
 let rec pos_of_int (n : int) : positive =
@@ -28,7 +29,7 @@ let show_v = function Accept n -> Printf.sprintf "A%d" (int_of_nat n) | Reject -
 let show_frames (fs, _) = if fs = [] then "-" else String.concat ";" (List.map (fun (o, b) -> Printf.sprintf "%d:%d" (int_of_nat o) (List.length b)) fs)
 let analysis (l : n list) : string =
   let v = match encoder_unpack_validate l with
-    | None -> "short" | Some (_, VcOk) -> "ok" | Some (_, VcTooBig) -> "big" | Some (_, VcMismatch) -> "mismatch" in
+    | None -> "short" | Some (_, VcOk) -> "ok" | Some (_, VcTooBig) -> "big" | Some (_, VcNotEnough) -> "notenough" | Some (_, VcMismatch) -> "mismatch" in
   let i = match encoder_cpp_is_valid l with None -> "OOB" | Some true -> "1" | Some false -> "0" in
   let c1 = match encoder_cpp_crc1 l with None -> "OOB" | Some c -> string_of_int (int_of_n c) in
   let jl = encoder_judge false true mAX_EXPECTED_SIZE_BYTES in
@@ -61,7 +62,17 @@ let () =
         Printf.printf "%s %d\n" (String.concat "," (List.map (function None -> "ERR" | Some b -> hex_of_bytes b) outs)) (int_of_n s1)
      | ["FM"; c] -> framer_cap := int_of_string c; print_endline "ok"
      | ["B"; h] -> base := bytes_of_hex h; print_endline (analysis !base)
-     | ["E"; off; x] -> print_endline (analysis (apply_err !base (int_of_string off) (bytes_of_hex x)))
+     | "E" :: rest ->
+        let rec go l = function off :: x :: t -> go (apply_err l (int_of_string off) (bytes_of_hex x)) t | _ -> l in
+        print_endline (analysis (go !base rest))
+     | ["HC"; c] -> (match String.split_on_char ':' c with
+        | [t; v; sq; src; h] ->
+          let hd = { h_sync0 = sYNC0; h_sync1 = sYNC1; h_reserved = N0; h_crc = N0; h_proto = pROTOCOL_VERSION; h_msgver = n_of_int (int_of_string v);
+                     h_type = n_of_int (int_of_string t); h_seq = n_of_int (int_of_string sq); h_psize = N0; h_source = n_of_int (int_of_string src) } in
+          (match encoder_calculate_crc hd (bytes_of_hex h) with
+           | None -> print_endline "ERR"
+           | Some h2 -> Printf.printf "%d %d\n" (int_of_n h2.h_crc) (int_of_n h2.h_psize))
+        | _ -> print_endline "?")
      | ["ORD"; p] -> Printf.printf "%d\n" (int_of_n (encoder_steps1_fast (pos_of_int (int_of_string p))))
      | _ -> print_endline "?")
     with Failure m -> print_endline ("?" ^ m));
